@@ -865,10 +865,13 @@ _MATCH = ["Language.isMatch", "LangId.subtagMatches", "LangId.isOptionEmpty", "L
 # the parsers: loops, mutation, the subtag iterator (srclean's imperative subset; theorems in SrcTie/*Parse*.lean)
 _PARSE_LI = ["LangId.parseIter", "LangId.parse", "LangId.tryFromIter", "LangId.fromBytes"]
 _PARSE_LOC = ["UExt.parseIter", "TExt.parseIter", "PExt.parseIter", "ExtMap.parseIter", "ExtMap.fromBytes", "Locale.parse", "Locale.fromBytes"]
+# the `Display` impls (formatter = output buffer, `for` loops), `is_empty`, `canonicalize`
+_FMT = ["Language.fmt", "Script.fmt", "Region.fmt", "Variant.fmt", "LangId.fmt", "UExt.isEmpty", "TExt.isEmpty", "PExt.isEmpty", "ExtMap.isEmpty",
+        "UExt.fmt", "TExt.fmt", "PExt.fmt", "ExtMap.fmt", "Locale.fmt", "LangId.canonicalize", "Locale.canonicalize"]
 SRC_TIE = {"C01": _SUBTAGS + _EXT + _PARSE_LI + _PARSE_LOC, "C02": _SUBTAGS + _PARSE_LI, "C03": _SUBTAGS + _EXT + _PARSE_LI + _PARSE_LOC,
-           "C04": _SUBTAGS + _EXT + _PARSE_LI + _PARSE_LOC, "C05": _SUBTAGS + _EXT + _PARSE_LI + _PARSE_LOC,
-           "C09": _SUBTAGS + _EXT + _PARSE_LI + _PARSE_LOC, "C10": _SUBTAGS + _EXT, "C11": _MATCH, "C12": ["Language.asStr"],
-           "C13": _SUBTAGS + _PARSE_LI + _PARSE_LOC, "C15": _SUBTAGS, "C17": _SUBTAGS + _PARSE_LI}
+           "C04": _SUBTAGS + _EXT + _PARSE_LI + _PARSE_LOC + _FMT, "C05": _SUBTAGS + _EXT + _PARSE_LI + _PARSE_LOC + _FMT,
+           "C09": _SUBTAGS + _EXT + _PARSE_LI + _PARSE_LOC, "C10": _SUBTAGS + _EXT, "C11": _MATCH, "C12": ["Language.asStr"] + _FMT, "C19": _PARSE_LI + _FMT,
+           "C13": _SUBTAGS + _PARSE_LI + _PARSE_LOC, "C15": _SUBTAGS, "C17": _SUBTAGS + _PARSE_LI + _FMT}
 
 
 PARSE_STREAMS = [("tokens", None), ("wf", None), ("near", None), ("raw", None)]
